@@ -336,12 +336,6 @@ def deletion_triggers(m, kind, target, extra=None):
         affected = [sp] + subs_of(m, sp)
     else:
         affected = [target] + subs_of(m, target)
-    # lazy namespaces (Lazy layer, not modelled here): when the members of a space change through
-    # inheritance (on_inherit) the ItemSpaces of containing spaces that hold a copy of it are discarded
-    # only if its namespace had been looked at since the last change
-    inherited = affected if kind in ("space", "bases", "addbases") else affected[1:]
-    if any(has_items_above(t) for t in inherited):
-        trig.add("stale_ns")
     if kind in ("space", "bases"):
         # D3: the re-derivation after remove_bases / del space walks the old graph breadth first; a space that
         # inherits from the edited one along two routes can be visited before one of its bases (IndexError)
